@@ -68,7 +68,11 @@ func main() {
 	repo := flag.String("repo", "/repo", "goat working tree")
 	out := flag.String("out", "", "scratch output directory")
 	verif := flag.String("verif", "/verif/sim/overlay", "directory with files to add")
+	as := flag.String("as", "", "path the module is compiled as (overlay keys); default: -repo. With -as /repo -repo /tmp/x the tree in /tmp/x is compiled in place of /repo")
 	flag.Parse()
+	if *as == "" {
+		*as = *repo
+	}
 	if *out == "" {
 		fmt.Fprintln(os.Stderr, "instr: -out required")
 		os.Exit(2)
@@ -101,6 +105,9 @@ func main() {
 				continue
 			}
 			if res == nil {
+				if *as != *repo {
+					overlay[filepath.Join(*as, rel)] = src // unchanged file of the substituted tree
+				}
 				continue // nothing to rewrite
 			}
 			dst := filepath.Join(*out, rel)
@@ -109,7 +116,7 @@ func main() {
 				fmt.Fprintln(os.Stderr, "instr:", err)
 				os.Exit(2)
 			}
-			overlay[src] = dst
+			overlay[filepath.Join(*as, rel)] = dst
 			rep.Files[rel] = fr
 			for k, v := range fr.Counts {
 				rep.Totals[k] += v
@@ -129,10 +136,10 @@ func main() {
 			overlay[filepath.Join(dstDir, e.Name())] = filepath.Join(srcDir, e.Name())
 		}
 	}
-	addDir(filepath.Join(*verif, "simhook"), filepath.Join(*repo, "internal", "simhook"))
-	addDir(filepath.Join(*verif, "goat"), *repo)
-	addDir(filepath.Join(*verif, "client"), filepath.Join(*repo, "internal", "client"))
-	addDir(filepath.Join(*verif, "server"), filepath.Join(*repo, "internal", "server"))
+	addDir(filepath.Join(*verif, "simhook"), filepath.Join(*as, "internal", "simhook"))
+	addDir(filepath.Join(*verif, "goat"), *as)
+	addDir(filepath.Join(*verif, "client"), filepath.Join(*as, "internal", "client"))
+	addDir(filepath.Join(*verif, "server"), filepath.Join(*as, "internal", "server"))
 
 	ov, _ := json.MarshalIndent(map[string]any{"Replace": overlay}, "", " ")
 	if err := os.WriteFile(filepath.Join(*out, "overlay.json"), ov, 0o644); err != nil {
